@@ -47,8 +47,32 @@ func (v *sharedVal) digest() string {
 		}
 		return digest([]byte(sb.String()))
 	default:
-		return geomDigest(v.g)
+		// the geometry, the sequence of all its coordinates and its envelope are three shared values of their own
+		var sb strings.Builder
+		sb.WriteString(geomDigest(v.g))
+		for i := 0; i < v.seq.Length(); i++ {
+			c := v.seq.Get(i)
+			fmt.Fprint(&sb, bitsHex(c.X), bitsHex(c.Y), bitsHex(c.Z), bitsHex(c.M))
+		}
+		sb.WriteString(v.seq.CoordinatesType().String())
+		sb.WriteString(v.env.String())
+		return digest([]byte(sb.String()))
 	}
+}
+
+// withParts attaches the shared Sequence and Envelope values derived from g once, at creation.
+func withParts(g geom.Geometry) *sharedVal {
+	return &sharedVal{g: g, seq: g.DumpCoordinates(), env: g.Envelope()}
+}
+
+func seqStr(s geom.Sequence) string {
+	var sb strings.Builder
+	sb.WriteString(s.CoordinatesType().String())
+	for i := 0; i < s.Length(); i++ {
+		c := s.Get(i)
+		fmt.Fprint(&sb, bitsHex(c.X), bitsHex(c.Y), bitsHex(c.Z), bitsHex(c.M), s.GetXY(i), ";")
+	}
+	return sb.String()
 }
 
 func resStr(g geom.Geometry, err error) string {
@@ -113,6 +137,24 @@ var pureOps = []pureOp{
 			sb.WriteString(d.AsText())
 		}
 		return sb.String() + fmt.Sprint(seqToks(a.g.DumpCoordinates()))
+	}},
+	{"SequenceOps", func(a, b *sharedVal) string {
+		s := a.seq
+		out := seqStr(s.Reverse()) + seqStr(s.ForceCoordinatesType(geom.DimXYZM)) + seqStr(s.ForceCoordinatesType(geom.DimXYM)) + seqStr(s.Force2D()) + s.Envelope().String()
+		if n := s.Length(); n >= 2 {
+			out += seqStr(s.Slice(0, n/2)) + seqStr(s.Slice(n/2, n)) + seqStr(s.Slice(1, n).Reverse())
+			out += geom.NewLineString(s.Slice(0, n/2+1)).Reverse().AsText() + geom.NewLineString(s).Densify(0.75).AsText()
+		}
+		return out
+	}},
+	{"EnvelopeOps", func(a, b *sharedVal) string {
+		e, o := a.env, b.env
+		d, ok := e.Distance(o)
+		bx, bok := e.AsBox()
+		return fmt.Sprint(e.ExpandToIncludeEnvelope(o), o.ExpandToIncludeEnvelope(e), e.ExpandToIncludeXY(geom.XY{X: 7, Y: -7}), e.Contains(geom.XY{X: 1, Y: 1}), e.Intersects(o),
+			e.Covers(o), o.Covers(e), bitsHex(d), ok, e.Center().AsText(), e.Width(), e.Height(), e.Area(), e.AsGeometry().AsText(), e.BoundingDiagonal().AsText(),
+			e.Min().AsText(), e.Max().AsText(), bx, bok, e.IsEmpty(), e.IsPoint(), e.IsLine(), e.IsRectangle(), e.Validate(),
+			e.TransformXY(func(p geom.XY) geom.XY { return geom.XY{X: -p.Y, Y: p.X} }))
 	}},
 	{"Summary", func(a, b *sharedVal) string { return a.g.Summary() + a.g.String() }},
 	{"DumpCoordinates", func(a, b *sharedVal) string { return fmt.Sprint(seqToks(a.g.DumpCoordinates())) }},
@@ -198,7 +240,7 @@ func purityExec(c Case) Event {
 		if i%5 == 4 {
 			g = g.ForceCoordinatesType(geom.DimXYZM)
 		}
-		vals = append(vals, &sharedVal{g: g})
+		vals = append(vals, withParts(g))
 		if bx, ok := g.Envelope().AsBox(); ok {
 			items = append(items, rtree.BulkItem{Box: bx, RecordID: i + 1})
 		}
@@ -217,16 +259,16 @@ func purityExec(c Case) Event {
 		w := []geom.LineString{geom.NewLineString(all.Slice(0, 3)), geom.NewLineString(all.Slice(3, 6)), geom.NewLineString(all.Slice(6, 9))}
 		pt := l.pt().AsPoint().AsGeometry()
 		vals = append(vals,
-			&sharedVal{g: geom.NewGeometryCollection([]geom.Geometry{w[0].AsGeometry(), pt, w[2].AsGeometry()}).AsGeometry()},
-			&sharedVal{g: w[1].AsGeometry()},
-			&sharedVal{g: geom.NewGeometryCollection([]geom.Geometry{w[1].AsGeometry(), w[0].AsGeometry()}).AsGeometry()},
-			&sharedVal{g: geom.NewMultiLineString(w).AsGeometry()})
+			withParts(geom.NewGeometryCollection([]geom.Geometry{w[0].AsGeometry(), pt, w[2].AsGeometry()}).AsGeometry()),
+			withParts(w[1].AsGeometry()),
+			withParts(geom.NewGeometryCollection([]geom.Geometry{w[1].AsGeometry(), w[0].AsGeometry()}).AsGeometry()),
+			withParts(geom.NewMultiLineString(w).AsGeometry()))
 		long := geom.NewLineString(seqOf([]geom.XY{{X: 0, Y: 0}, {X: 1, Y: 1}, {X: 2, Y: 0}, {X: 3, Y: 1}, {X: 4, Y: 0}})).AsGeometry()
 		cut := mustWKT("MULTILINESTRING((0 0,1 1),(2 0,3 1),(3 1,4 0))")
 		if res, err := geom.Intersection(long, cut); err == nil {
-			vals = append(vals, &sharedVal{g: res})
+			vals = append(vals, withParts(res))
 			for _, d := range res.Dump() {
-				vals = append(vals, &sharedVal{g: geom.NewGeometryCollection([]geom.Geometry{d, pt}).AsGeometry()})
+				vals = append(vals, withParts(geom.NewGeometryCollection([]geom.Geometry{d, pt}).AsGeometry()))
 			}
 		}
 		nvals = len(vals)
